@@ -20,7 +20,7 @@ var _ EntityGetter = EntityMap{}
 type EntityMap map[EntityUID]Entity
 
 func (e EntityMap) MarshalJSON() ([]byte, error) {
-	s := slices.Collect(maps.Values(e))
+	s := slices.AppendSeq(make([]Entity, 0, len(e)), maps.Values(e)) // non-nil: an empty map is [], not null
 	slices.SortFunc(s, func(a, b Entity) int {
 		return strings.Compare(a.UID.String(), b.UID.String())
 	})
